@@ -3562,6 +3562,8 @@ template <typename T>
 void
 BD_Shape<T>::forget_all_dbm_constraints(const dimension_type v) {
   PPL_ASSERT(0 < v && v <= dbm.num_rows());
+  // The redundancy information is no longer valid.
+  reset_shortest_path_reduced();
   DB_Row<N>& dbm_v = dbm[v];
   for (dimension_type i = dbm.num_rows(); i-- > 0; ) {
     assign_r(dbm_v[i], PLUS_INFINITY, ROUND_NOT_NEEDED);
@@ -3573,6 +3575,8 @@ template <typename T>
 void
 BD_Shape<T>::forget_binary_dbm_constraints(const dimension_type v) {
   PPL_ASSERT(0 < v && v <= dbm.num_rows());
+  // The redundancy information is no longer valid.
+  reset_shortest_path_reduced();
   DB_Row<N>& dbm_v = dbm[v];
   for (dimension_type i = dbm.num_rows()-1; i > 0; --i) {
     assign_r(dbm_v[i], PLUS_INFINITY, ROUND_NOT_NEEDED);
@@ -6559,11 +6563,11 @@ BD_Shape<T>::minimized_constraints() const {
   const Bit_Row& red_0 = redundancy_dbm[0];
   for (dimension_type l_i = 1; l_i < num_leaders; ++l_i) {
     const dimension_type i = leader_indices[l_i];
-    if (!red_0[i]) {
+    if (!red_0[i] && !is_plus_infinity(dbm_0[i])) {
       numer_denom(dbm_0[i], numer, denom);
       cs.insert(denom*Variable(i-1) <= numer);
     }
-    if (!redundancy_dbm[i][0]) {
+    if (!redundancy_dbm[i][0] && !is_plus_infinity(dbm[i][0])) {
       numer_denom(dbm[i][0], numer, denom);
       cs.insert(-denom*Variable(i-1) <= numer);
     }
@@ -6575,11 +6579,11 @@ BD_Shape<T>::minimized_constraints() const {
     const Bit_Row& red_i = redundancy_dbm[i];
     for (dimension_type l_j = l_i + 1; l_j < num_leaders; ++l_j) {
       const dimension_type j = leader_indices[l_j];
-      if (!red_i[j]) {
+      if (!red_i[j] && !is_plus_infinity(dbm_i[j])) {
         numer_denom(dbm_i[j], numer, denom);
         cs.insert(denom*Variable(j-1) - denom*Variable(i-1) <= numer);
       }
-      if (!redundancy_dbm[j][i]) {
+      if (!redundancy_dbm[j][i] && !is_plus_infinity(dbm[j][i])) {
         numer_denom(dbm[j][i], numer, denom);
         cs.insert(denom*Variable(i-1) - denom*Variable(j-1) <= numer);
       }
